@@ -108,6 +108,8 @@ def drive_c11(ctx):
     ints = [x for i, x in enumerate(c11_ints(ctx)) if mine(ctx, i)]
     extra = [rng.randint(-(1 << 64), 1 << 64) for _ in range(300 if ctx.quick else 3000)]
     extra += [rng.randint(-(1 << 33), 1 << 33) for _ in range(300 if ctx.quick else 3000)]
+    if ctx.shard == 2:          # refused whatever their size: beyond float range too (a message formatted through a float overflows)
+        extra += [2 ** 1100, -(2 ** 1100), 10 ** 400, -(10 ** 400), 2 ** 1024, 2 ** 1023, 1 << 4000]
     if ctx.shard in (0, 1):
         # an integer right after a number that compares EQUAL to it but is not an integer (7.0, Decimal(7), True) and the
         # other way round, in both modes, alone and as siblings: the ladder is about integers whatever was encoded before
@@ -317,6 +319,10 @@ def drive_c18(ctx):
         for triple in ((0, 9, 0), (1, 0, 0), (0, 0, 1), (0, 0, 0), (0, 9, 1), (255, 0, 255), (0, 255, 0), (9, 0, 9), (1, 1, 0), (0, 10, 0)):
             rec.add('BuildFrame', P, nt=True, **actions.build_frame('ProtocolHeader', *triple))
             rec.add('RoundTrip', P, nt=True, label='zero octets', **actions.roundtrip(header.ProtocolHeader(*triple), 0))
+        for a_ in (0, 1, 8, 9, 10):
+            for b_ in (0, 1, 8, 9, 10):
+                for c_ in (0, 1, 8, 9, 10):
+                    rec.add('RoundTrip', P, nt=True, label='version cube', **actions.roundtrip(header.ProtocolHeader(a_, b_, c_), 0))
         for raw in (b'\x00', b'', b'0', b'\xce', b'abc', bytes(range(256))):
             if raw:
                 rec.add('BuildFrame', P, nt=True, **actions.build_frame('ContentBody', raw))
@@ -688,6 +694,25 @@ def drive_c17(ctx):
         if exceptions.CLASS_MAPPING.get(code) is not None:
             get_ok.append(code)
     rec.add('UndefinedCodes', P, nt=True, subscript_ok=sub_ok, contains=cont, get_ok=get_ok, other_exc=other)
+    # every class is RAISED the ways a client raises it (no argument, a text, code and text, three arguments) and caught as the
+    # library's common base
+    for key, cls in items:
+        if not isinstance(cls, type):
+            continue
+        bad_ = []
+        for args_ in ((), ('NOT_FOUND - no queue',), (key, 'SYNTAX_ERROR - bad'), (key, 'text', 50), (key, 40, 20), ('abcd', 'efgh')):
+            try:
+                try:
+                    raise cls(*args_)
+                except exceptions.PAMQPException:
+                    pass
+            except BaseException as e_:  # noqa
+                bad_.append('%d args: %s' % (len(args_), type(e_).__name__))
+        if bad_:
+            rec.add('ReplyCode', P, nt=True, via='raise and catch: ' + '; '.join(bad_)[:200], key=as_int(key), value=as_int(getattr(cls, 'value', None)),
+                    name=str(getattr(cls, 'name', '<missing>')), cls=str(getattr(cls, '__name__', repr(cls))),
+                    soft=issubclass(cls, exceptions.AMQPSoftError), hard=issubclass(cls, exceptions.AMQPHardError),
+                    amqp=issubclass(cls, exceptions.AMQPError), base=False, is_exc=issubclass(cls, Exception))
     # one code after another by FRESH integer objects (as read from a decoded Close frame), every ordered pair of specified
     # codes: each lookup answers for its own code
     codes_ = [k for k, _ in items if isinstance(k, int)]
@@ -767,6 +792,20 @@ def drive_c05(ctx):
     P = ['C05']
     class_failure_pairs(ctx, P, encode_side=False)
     header_failure_pairs(ctx, P, 4 if ctx.quick else 60)
+    if ctx.shard == 1:
+        # received decimals decoded under whatever decimal context the application runs with
+        import decimal as _d05
+        for prec_, trap_ in ((1, False), (3, False), (6, True), (50, False)):
+            with _d05.localcontext() as c_:
+                c_.prec = prec_
+                if trap_:
+                    c_.traps[_d05.Inexact] = True
+                for scale_, raw_ in ((2, 1234567), (4, 12345678), (0, 2147483647), (10, 0x7FFFFFFF), (255, 1), (3, 0xFFFFFEC6), (28, 5)):
+                    val = b'D' + bytes([scale_]) + struct.pack('>I', raw_)
+                    rec.add('DecodeValue', P, nt=True, label='decimal-context', **actions.decode_value(val, 'top'))
+                    tbl_ = b'\x05price' + val
+                    fr_ = wiregen.envelope(1, 1, struct.pack('>HH', 50, 10) + b'\x00\x00' + b'\x01q' + b'\x00' + struct.pack('>I', len(tbl_)) + tbl_)
+                    rec.add('Unmarshal', P, nt=True, label='decimal-context', wf=True, **actions.unmarshal(fr_))
     n = 1 if ctx.quick else 12
     # every tag, boundary payloads
     for tag in wiregen.TAGS:
@@ -1791,6 +1830,18 @@ def tz_instants(rng, n):
         out.append(t.astimezone(dtm.timezone(dtm.timedelta(seconds=rng.choice([3600, -18000, 20700, 45900, -34200])))))
         out.append(time.struct_time((t.year, t.month, t.day, t.hour, t.minute, t.second, 0, 1, rng.choice([-1, 0, 1]))))
         out.append(time.gmtime(s))
+    # struct_time values that carry tm_zone / tm_gmtoff (from localtime(), strptime('%z'), or built with 11 fields): the nine
+    # calendar fields are read as UTC whatever offset is attached
+    for s in secs[:6]:
+        t = dtm.datetime(1970, 1, 1, tzinfo=U) + dtm.timedelta(seconds=s)
+        nine = (t.year, t.month, t.day, t.hour, t.minute, t.second, 0, 1, 0)
+        out.append(time.struct_time(nine + ('CEST', 7200)))
+        out.append(time.struct_time(nine + ('EST', -18000)))
+        out.append(time.localtime(s))
+        try:
+            out.append(time.strptime(t.strftime('%Y-%m-%d %H:%M:%S') + ' +0530', '%Y-%m-%d %H:%M:%S %z'))
+        except ValueError:
+            pass
     return out
 
 
@@ -2134,7 +2185,7 @@ def generic_storm(ctx, frames=()):
 # systematic history families (used by several properties)
 # ---------------------------------------------------------------------------
 REFUSED_ARG = {'bit': [None, 'x'], 'octet': [None, 'x', 256], 'short': [None, 'x', 65536], 'long': [None, -1], 'longlong': [None, 1 << 64],
-               'shortstr': [None, 5, 'x' * 256], 'longstr': [None, 5], 'table': [5, {'k': 1 << 64}, {'\u20ac' * 100: 1}, {'k': 1e39}], 'timestamp': [5]}
+               'shortstr': [None, 5, 'x' * 256, b'raw'], 'longstr': [None, 5, b'\x00guest\x00guest', b'', bytearray(b'tok')], 'table': [5, {'k': 1 << 64}, {'\u20ac' * 100: 1}, {'k': 1e39}], 'timestamp': [5]}
 
 
 def class_failure_pairs(ctx, props, decode_side=True, encode_side=True):
